@@ -338,7 +338,7 @@ void verif_run(verif::Args const& a, verif::Evidence& ev)
               "{whole (aligned or not), sub-view, sub-sampled, flipped both ways, transposed}, contents {random, gradient, constant, checker}, destination and read-back device {file name, FILE*, std stream}, TIFF "
               "{none, LZW, deflate, packbits} x {strip, tiles 16/32}, optional cross-device byte comparison). oracle: read_image into the same type has the same dimensions and every channel of every pixel equals the source "
               "view's (JPEG: quality 100, frozen bounds). non-trivial: width not a multiple of 8 or non-contiguous source; distinct = (entry, shape, organisation, content kind, devices, options).";
-    int cases = th ? 150000 : 25000;
+    int cases = th ? 450000 : 25000;
     verif::rc_search(ev, a, "rt", cases, 60, [&] { return gen_case(th); }, run_case, nontrivial, {"entry", "w", "h", "org", "content", "dest", "rdev", "opt", "xdev"});
     if (g_known_tiff_alpha)
     {
